@@ -3,6 +3,7 @@ import WcModel.Driver.Parse
 import WcModel.Model.Norm
 import WcModel.Model.Split
 import WcModel.Model.Compile
+import WcModel.Model.Cache
 /-
   Driver commands of the list level (C20 norm, C11/C07 loops, WcSplit, C19 cache).
   `handlers` is looked up by `Main.dispatch`.
@@ -199,7 +200,21 @@ def handleLists : List String → Option String
         pure s!"ok {o.pulls} {encList (o.pos.map (·.text))} {encList (o.neg.map (·.text))} {matchBits o.pos o.neg r.subjects}"
   | _ => none
 
+/-- `lru <capacity> <key id>…` → `ok <H|M per call> <final size>`: the hit / miss trace of the LRU
+    model for a sequential history (keys are opaque ids) -/
+def handleLru : List String → Option String
+  | cap :: keys => do
+    let cap ← cap.toNat?
+    let ks ← keys.mapM String.toNat?
+    let keyOf : Nat → Cache.Key := fun n => ⟨false, [], n⟩
+    let ks := ks.map keyOf
+    let f : Cache.Key → Nat := fun _ => 0
+    let tr := Cache.trace cap f ks []
+    let fin := (Cache.run cap f ks []).2
+    pure s!"ok {String.ofList (tr.map fun b => if b then 'H' else 'M')} {fin.length}"
+  | _ => none
+
 def handlers : List (String × (List String → Option String)) :=
-  [("norm", handleNorm), ("split", handleSplit), ("lists", handleLists)]
+  [("norm", handleNorm), ("split", handleSplit), ("lists", handleLists), ("lru", handleLru)]
 
 end WcModel.Driver.Lists
